@@ -32,30 +32,30 @@ func (i *InlineAnchoringApplier) Spec_ApplyAnchoring(
 	newAlternatives := make([]model.AlternativeWithCriteria, len(*perReferencePointDiffs))
 	appliedDifferences := make([]model.AlternativeWithCriteria, len(*perReferencePointDiffs))
 	for i, p := range *perReferencePointDiffs {
-		newWeights := *arithmeticAverage(p.ReferencePointsDifference)
+		newWeights := *Spec_arithmeticAverage(p.ReferencePointsDifference)
 		differences := make(model.Weights, len(boundingsWithScales))
 		for c, scaling := range boundingsWithScales {
-			difference := newWeights.Fetch(c)
-			value := p.Alternative.Criteria.Fetch(c)
-			newValue := value + scaling.scaling.ValuesRange.Diff()*difference
-			newValue = scaling.bounding.BoundValue(newValue)
+			difference := newWeights.Spec_Fetch(c)
+			value := p.Alternative.Criteria.Spec_Fetch(c)
+			newValue := value + scaling.scaling.ValuesRange.Spec_Diff()*difference
+			newValue = scaling.bounding.Spec_BoundValue(newValue)
 			differences[c] = newValue - value
 			newWeights[c] = newValue
 		}
-		newAlternatives[i] = *p.Alternative.WithCriteriaValues(&newWeights)
-		appliedDifferences[i] = *p.Alternative.WithCriteriaValues(&differences)
+		newAlternatives[i] = *p.Alternative.Spec_WithCriteriaValues(&newWeights)
+		appliedDifferences[i] = *p.Alternative.Spec_WithCriteriaValues(&differences)
 	}
 	notConsidered := dmp.NotConsideredAlternatives
 	result := InlineAnchoringApplierResult{
 		AppliedDifferences: appliedDifferences,
 	}
 	if parsedParams.ApplyOnNotConsidered {
-		notConsidered = *model.UpdateAlternatives(&notConsidered, &newAlternatives)
+		notConsidered = *model.Spec_UpdateAlternatives(&notConsidered, &newAlternatives)
 	} else {
-		result.AppliedDifferences = *model.UpdateAlternatives(&dmp.ConsideredAlternatives, &appliedDifferences)
+		result.AppliedDifferences = *model.Spec_UpdateAlternatives(&dmp.ConsideredAlternatives, &appliedDifferences)
 	}
 	return &model.DecisionMakingParams{
-		ConsideredAlternatives:    *model.UpdateAlternatives(&dmp.ConsideredAlternatives, &newAlternatives),
+		ConsideredAlternatives:    *model.Spec_UpdateAlternatives(&dmp.ConsideredAlternatives, &newAlternatives),
 		NotConsideredAlternatives: notConsidered,
 		Criteria:                  dmp.Criteria,
 		MethodParameters:          dmp.MethodParameters,
@@ -69,7 +69,7 @@ func Spec_arithmeticAverage(points []ReferencePointDifference) *model.Weights {
 			if i == 0 {
 				newWeights[c] = v
 			} else {
-				oldWeight := newWeights.Fetch(c)
+				oldWeight := newWeights.Spec_Fetch(c)
 				newWeights[c] = oldWeight + v
 			}
 		}
